@@ -162,11 +162,66 @@ def run(ctx):
                         f"effect created as ({et0},{oa0}) and re-targeted to ({et},{oa}) with class {c}, amount {a}, variable {v} stores quantity={sq} variable={sv}",
                         {"op": "retarget", "tv": tv, "from": [et0, oa0], "to": [et, oa], "class": c, "amount": a, "variable": v})
 
+    # ---- (b3) any sequence of setter calls on one effect (quantity, type/attribute, class, amount, variable) ----
+    def do_seq(tv, g, et0, oa0, ops):
+        """ops: list of ('q', n) | ('t', et, oa) | ('c', n) | ('a', n) | ('v', n); the pair that was set LAST is what is stored"""
+        set_tv(tv)
+        k = 16 if g else 8
+        txt = ";".join(f"t{so(o[1])}:{so(o[2])}" if o[0] == "t" else f"{o[0]}{o[1]}" for o in ops)
+        cmd = f"seq {g} {so(et0)} {so(oa0)} {txt}"
+        st, e = common.outcome(lambda: Eff(effect_type=et0, object_attributes=oa0))
+        if st != "ok":
+            add(cmd, "error", ("seq",)); return
+        import warnings
+        famq = lambda et, oa: (et in [int(x) for x in AA]) or (et in [int(x) for x in PQ] and oa in [int(x) for x in ATTRS])
+        famv = lambda et, oa: (et in [int(x) for x in PV] and oa in [int(x) for x in ATTRS])
+        et, oa = et0, oa0
+        cls = amt = plain = None          # independent bookkeeping of what the user said last
+        var = -1
+        with warnings.catch_warnings():
+            warnings.simplefilter("ignore")
+            for o in ops:
+                if o[0] == "q":
+                    e.quantity = o[1]
+                    plain = o[1]
+                    if famq(et, oa):
+                        cls, amt = o[1] >> k, o[1] & (2 ** k - 1)
+                elif o[0] == "t":
+                    e.effect_type = o[1]
+                    e.object_attributes = o[2]
+                    et, oa = o[1], o[2]
+                elif o[0] == "c":
+                    e.armour_attack_class = o[1]; cls = o[1]
+                elif o[0] == "a":
+                    e.armour_attack_quantity = o[1]; amt = o[1]
+                else:
+                    e.variable = o[1]; var = o[1]
+        src = e._armour_attack_source or "none"
+        s1, sq = common.outcome(lambda: e.quantity)
+        s2, sv = common.outcome(lambda: e._variable_ref)
+        add(cmd, f"src={src} q={so(sq) if s1 == 'ok' else 'error'} v={so(sv) if s2 == 'ok' else 'error'}", ("seq", tv, et0, oa0, ops))
+        fq, fv = famq(et, oa), famv(et, oa)
+        R.case(key=("seq", g, et0, oa0, txt), nontrivial=(fq or fv) and len(ops) >= 3, tags=("seq:" + ("q" if fq else "v" if fv else "plain"), f"seq-len:{len(ops)}"))
+        good = True
+        if fq and cls is not None and amt is not None:
+            good = s1 == "ok" and sq == cls * 2 ** k + amt
+        elif fv and cls is not None:
+            good = s2 == "ok" and sv == cls * 2 ** k + var
+        elif not fq and not fv:
+            good = s1 == "ok" and sq == plain and s2 == "ok" and sv == var
+        if not good:
+            R.violation({"op": "seq", "form": "quantity" if fq else "variable" if fv else "plain", "layout": k},
+                        f"effect created as ({et0},{oa0}), then {txt}: the last pair said class={cls} amount={amt} variable={var} plain quantity={plain}, "
+                        f"stored quantity={sq if s1 == 'ok' else 'raises'} variable={sv if s2 == 'ok' else 'raises'}",
+                        {"op": "seq", "tv": tv, "from": [et0, oa0], "ops": [list(o) for o in ops]})
+
     # corpus first
     for c in ctx.corpus():
         rp = c.get("replay", c)
         if rp.get("op") == "pair":
             do_pair(rp["tv"], 1 if rp["tv"] >= 2.5 else 0, rp["effect_type"], rp["class"], rp["amount"])
+        elif rp.get("op") == "seq":
+            do_seq(rp["tv"], 1 if rp["tv"] >= 2.5 else 0, rp["from"][0], rp["from"][1], [tuple(o) for o in rp["ops"]])
         elif rp.get("op") == "load":
             do_load(rp["tv"], 1 if rp["tv"] >= 2.5 else 0, rp["effect_type"], rp["object_attributes"], rp["quantity"], rp["variable_ref"])
 
@@ -220,6 +275,33 @@ def run(ctx):
                 for oa in attr_vals[:3]:
                     tv, g = rng.choice([(2.4, 0), (2.5, 1), (3.9, 1)])
                     do_retarget(tv, g, et0, oa0, et, oa, rng.randrange(256), rng.randrange(256), rng.randrange(256))
+
+    # sequences of setter calls: the two documented shapes + seeded random ones
+    HP = int(ObjectAttribute.HIT_POINTS)
+    for tv, g in [(2.4, 0), (2.5, 1), (3.9, 1)]:
+        for oa in [int(x) for x in ATTRS]:
+            do_seq(tv, g, int(PQ[0]), HP, [("q", 300), ("t", int(PQ[0]), oa), ("c", 3), ("a", 5)])
+            do_seq(tv, g, int(PQ[0]), oa, [("c", 3), ("a", 5), ("q", 2 * 2 ** (16 if g else 8) + 7), ("a", 9)])
+        for et in [int(x) for x in AA]:
+            do_seq(tv, g, et, None, [("c", 3), ("a", 5), ("q", 2 * 2 ** (16 if g else 8) + 7), ("a", 9), ("c", 1)])
+    for _ in range(ctx.budget(1500, 20000)):
+        tv, g = rng.choice([(2.4, 0), (2.5, 1), (3.9, 1)])
+        kk = 16 if g else 8
+        et0, oa0 = rng.choice(fam_types + plain_types), rng.choice(attr_vals)
+        ops = []
+        for _ in range(rng.randrange(2, 7)):
+            r = rng.random()
+            if r < 0.25:
+                ops.append(("q", rng.choice([rng.randrange(2 ** kk), rng.randrange(2 ** (2 * kk)), 300, 0])))
+            elif r < 0.45:
+                ops.append(("t", rng.choice(fam_types + plain_types[:1]), rng.choice(attr_vals[:3])))
+            elif r < 0.65:
+                ops.append(("c", rng.randrange(2 ** kk if rng.random() < 0.5 else 40)))
+            elif r < 0.85:
+                ops.append(("a", rng.randrange(2 ** kk if rng.random() < 0.5 else 300)))
+            else:
+                ops.append(("v", rng.randrange(256)))
+        do_seq(tv, g, et0, oa0, ops)
 
     # ---- correspondence: diff against the Lean model ---------------------------------------------------
     drv = ctx.driver()
